@@ -451,7 +451,8 @@ static uint64_t digest(void)
 			h = rs_mix(h, array_get_at(lp->mm_state.logs, i).ref_i);
 		h = rs_mix(h, lp->auto_ckpt.ckpt_rem);
 		h = rs_mix(h, lp->auto_ckpt.ckpt_interval);
-		h = rs_mix(h, lp->auto_ckpt.m_bad * 1000u + lp->auto_ckpt.m_good);
+		if(!P_ckpt) /* the good/bad counters only feed the automatic interval */
+			h = rs_mix(h, lp->auto_ckpt.m_bad * 1000u + lp->auto_ckpt.m_good);
 		h = rs_mix(h, lp->fossil_epoch != fossil_epoch_current);
 		h = rs_mix(h, (uint64_t)(lp->p.bound * 16.0));
 		h = rs_mix(h, committed_n[l]);
